@@ -31,6 +31,9 @@ def _json(sort, minimal):
     return f
 
 
+FOREIGN = [x for x in V.foreign_operands() if x == x]  # (NaN compares unequal to itself: kept out of a result that is compared)
+
+
 def accessors(ver, twin):
     """[(name, fn(obj) -> comparable result)]; twin: an equal object built separately."""
     acc = [("scores", lambda o: o.scores()), ("severities", lambda o: o.severities()),
@@ -38,7 +41,7 @@ def accessors(ver, twin):
            ("as_json", _json(False, False)), ("as_json_sort", _json(True, False)),
            ("as_json_minimal", _json(False, True)), ("as_json_sort_minimal", _json(True, True)),
            ("hash", lambda o: hash(o)), ("eq_self", lambda o: o == o), ("eq_twin", lambda o: (o == twin, twin == o)),
-           ("eq_foreign", lambda o: (o == None, o == "x", o == 1))]  # noqa: E711
+           ("eq_foreign", lambda o: [(o == x, x == o, o != x, x != o) for x in FOREIGN])]
     if ver != "2":
         acc.append(("clean_vector_noprefix", lambda o: o.clean_vector(output_prefix=False)))
     if ver in ("2", "3"):
